@@ -207,6 +207,29 @@ int sbdf_read_string(FILE* f, char** s)
 	return SBDF_OK;
 }
 
+int sbdf_skip_bytes(FILE* f, long n)
+{
+	char buf[4096];
+
+	if (!fseek(f, n, SEEK_CUR))
+	{
+		return SBDF_OK;
+	}
+
+	/* the stream cannot seek (a pipe, a socket): read the bytes and drop them */
+	while (n > 0)
+	{
+		size_t k = n < (long)sizeof(buf) ? (size_t)n : sizeof(buf);
+		if (fread(buf, 1, k, f) != k)
+		{
+			return SBDF_ERROR_IO;
+		}
+		n -= (long)k;
+	}
+
+	return SBDF_OK;
+}
+
 int sbdf_skip_string(FILE* f)
 {
 	int l, error;
@@ -221,7 +244,7 @@ int sbdf_skip_string(FILE* f)
 		return SBDF_ERROR_INVALID_SIZE;
 	}
 
-	if (fseek(f, l, SEEK_CUR))
+	if (sbdf_skip_bytes(f, l))
 	{
 		return SBDF_ERROR_IO;
 	}
